@@ -3,12 +3,20 @@ import re
 from checks.numlib import *
 
 META = {
-    "text": "Stage 1: Spec.run is a total Lean function whose outcome type has no crash alternative (outcome_defined, first_error_wins, run_is_pure) and is "
-            "differentially tied to compiler+VM, where a recovered Go panic is an outcome the model must agree on; every compiled program is run twice "
-            "(state left behind) under a watchdog; a byte-level stream feeds the real parser. Stage 2 (vm_never_panics on the bytecode model) is planned.",
-    "note": "PARTIAL: the ANTLR parser and the bytecode VM are not modelled yet, so 'never panics' is proved for Spec and observed (not proved) for the real "
-            "parser/compiler/VM on the sampled inputs. Trusted: Lean kernel; harness; watchdog timeout = hang.",
-    "technique": "Lean 4 proof (totality/typing of the Spec interpreter) + differential correspondence with panic as an outcome + crash/hang oracle",
+    "text": "Stage 1: Spec.run is a total Lean function whose outcome type has no crash alternative (outcome_defined, first_error_wins, run_is_pure). Stage 2 "
+            "(bytecode model A2, every Go panic site an explicit outcome): vm_terminates (no jumps: at most one tick per instruction), compile_never_panics (the "
+            "nil *Address of VisitExpr is never dereferenced), resolve_never_panics (ResolveResources/ResolveBalances on ANY compiled program, any variables, any "
+            "store: no failed type assertion, no nil dereference — the compiler only stores addresses of earlier resources of the right type), "
+            "vm_never_panics_partial (VM.run of a compiled program of the fragment {send from account|overdraft|max|in-order sources to an account, save, "
+            "set_tx_meta, set_account_meta, print, fail}: no wrong-typed or empty pop, no BUMP out of range, no nil balance map or nil amount, stack empty at the "
+            "end, metadata renderable). Ties: the compiler+VM models equal the real ones on every generated case (bytecode equality, outcome incl. panic/no "
+            "panic), Spec vs compiler+VM with a recovered Go panic as an outcome, every compiled program run twice under a watchdog, a byte-level stream into the "
+            "real parser.",
+    "note": "PARTIAL: vm_never_panics is proved for the fragment; for allotments and ordered destinations (MAKE_ALLOTMENT, ALLOC, BUMP n, kept) and for the ANTLR "
+            "parser, crash-freedom is observed on the sampled inputs (model and real VM agree on panic/no panic everywhere), not proved. Trusted: Lean kernel; "
+            "harness; watchdog timeout = hang.",
+    "technique": "Lean 4 proof (totality of Spec; typed resource tables, frame lemmas and stack discipline of the bytecode VM) + differential correspondence with "
+                 "panic as an outcome + crash/hang oracle",
     "design_ref": "5 (C12)",
 }
 
@@ -20,7 +28,8 @@ def panic_kind(msg):
 
 def run(ctx):
     ctx.cov["trusted_base"] = TRUSTED + TRUSTED_A2
-    ctx.cov["partial"] = "parser and bytecode VM not modelled: crash-freedom of the real code is observed on samples, proved only for Spec"
+    ctx.cov["partial"] = ("vm_never_panics proved for the fragment {send from account|overdraft|max|in-order sources to an account, save, metadata, print, fail}, "
+                           "resolve_never_panics and compile_never_panics for every program; allotments / ordered destinations and the ANTLR parser: observed only")
     ctx.l1()
     r = run_numscript(ctx, 2500 if ctx.quick else 100000)
     if r is None:
